@@ -38,9 +38,10 @@ GLOBALS = {"g_inch": "Ref:Unit", "g_centimeter": "Ref:Unit", "g_period": "Real",
 CLASSES = {
     "UnitFn": {"fields": {}},
     "Unit": {"fields": {"base_unit": "Ref:Unit", "base_to_unit": "Ref:UnitFn", "unit_to_base": "Ref:UnitFn"}},
-    "Counter": {"fields": {}}, "AnalogIn": {"fields": {}},
-    "MaxSonarEZPulseWidth": {"fields": {"output_units": "Ref:Unit", "counter": "Ref:Counter"}},
-    "MaxSonarEZAnalog": {"fields": {"output_units": "Ref:Unit", "analog": "Ref:AnalogIn"}},
+    "Counter": {"fields": {"g_channel": "Int", "g_semi_high": "Bool"}}, "AnalogIn": {"fields": {"g_channel": "Int"}},
+    "DriverBase": {"fields": {}},
+    "MaxSonarEZPulseWidth": {"bases": ["DriverBase"], "fields": {"output_units": "Ref:Unit", "counter": "Ref:Counter"}},
+    "MaxSonarEZAnalog": {"bases": ["DriverBase"], "fields": {"output_units": "Ref:Unit", "analog": "Ref:AnalogIn"}},
     "REVAnalogPressureSensor": {"fields": {"sensor": "Ref:AnalogIn", "voltage_in": "Real", "?Vn": "Bool", "Vn": "Real"}},
 }
 _WF_UNITS = {"every non-root unit has its two conversion callables": "forall(u, Ref_Unit, implies(u is not None and u.base_unit is not None, u.unit_to_base is not None and u.base_to_unit is not None))"}
@@ -71,6 +72,31 @@ CONTRACTS = {
     "Counter.getPeriod": {"kind": "external", "params": {}, "returns": "Real", "ensures": {"pulse width": "result == g_period"}, "note": "wpilib.Counter.getPeriod: arbitrary reading"},
     "AnalogIn.getVoltage": {"kind": "external", "params": {}, "returns": "Real", "ensures": {"voltage": "result == g_volt"}, "note": "wpilib.AnalogInput.getVoltage: arbitrary reading"},
     "AnalogIn.getAverageVoltage": {"kind": "external", "params": {}, "returns": "Real", "ensures": {"voltage": "result == g_avg_volt"}, "note": "arbitrary reading"},
+    "Unit.__init__": {
+        "file": FILE, "receivers": ["Unit"], "ctor": True, "params": {"base_unit": "Ref:Unit", "base_to_unit": "Ref:UnitFn", "unit_to_base": "Ref:UnitFn"},
+        "modifies": ["self.base_unit", "self.base_to_unit", "self.unit_to_base"],
+        "ensures": {"C18.U0 a unit records its base and its two conversion callables as given": "self.base_unit is base_unit and self.base_to_unit is base_to_unit and self.unit_to_base is unit_to_base"},
+    },
+    "sonar.new_counter": {"kind": "external", "params": {"channel": "Int"}, "returns": "Ref:Counter", "returns_fresh": True, "ensures": {"a counter on that channel, not yet in semi-period mode": "result.g_channel == channel and not result.g_semi_high"}, "note": "wpilib.Counter(channel)"},
+    "sonar.new_analog": {"kind": "external", "params": {"channel": "Int"}, "returns": "Ref:AnalogIn", "returns_fresh": True, "ensures": {"an analog input on that channel": "result.g_channel == channel"}, "note": "wpilib.AnalogInput(channel)"},
+    "Counter.setSemiPeriodMode": {"kind": "external", "params": {"highSemiPeriod": "Bool"}, "modifies": ["self.g_semi_high"], "ensures": {"semi-period mode on the requested level": "self.g_semi_high == highSemiPeriod"}, "note": "wpilib.Counter.setSemiPeriodMode"},
+    "DriverBase.__init__": {"kind": "external", "receivers": ["DriverBase"], "params": {}, "modifies": [], "ensures": {}, "note": "driver_base.DriverBase.__init__: prints a warning for unverified drivers"},
+    "MaxSonarEZPulseWidth.__init__": {
+        "file": F_SONAR, "receivers": ["MaxSonarEZPulseWidth"], "ctor": True, "params": {"channel": "Int", "output_units": "Ref:Unit"},
+        "modifies": ["self.output_units", "self.counter"],
+        "ensures": {"C18.S0 the driver reads the HIGH pulse width (semi-period mode, high) of a counter on the given channel and reports in the requested unit":
+                    "self.output_units is output_units and self.counter is not None and self.counter.g_channel == channel and self.counter.g_semi_high"},
+    },
+    "MaxSonarEZAnalog.__init__": {
+        "file": F_SONAR, "receivers": ["MaxSonarEZAnalog"], "ctor": True, "params": {"channel": "Int", "output_units": "Ref:Unit"},
+        "modifies": ["self.output_units", "self.analog"],
+        "ensures": {"C18.S0a the driver reads the analog input on the given channel and reports in the requested unit": "self.output_units is output_units and self.analog is not None and self.analog.g_channel == channel"},
+    },
+    "REVAnalogPressureSensor.__init__": {
+        "file": F_PRESS, "receivers": ["REVAnalogPressureSensor"], "ctor": True, "params": {"channel": "Int", "voltage_in": "Real"},
+        "modifies": ["self.sensor", "self.voltage_in"],
+        "ensures": {"C18.P0 the sensor reads the analog input on the given channel with the given supply voltage and is not calibrated yet": "self.sensor is not None and self.sensor.g_channel == channel and self.voltage_in == voltage_in and not has_attr(self, 'Vn')"},
+    },
     "MaxSonarEZPulseWidth.get": {
         "file": F_SONAR, "receivers": ["MaxSonarEZPulseWidth"], "params": {}, "returns": "Real", "modifies": [],
         "requires": dict({"wired": "self.counter is not None and self.output_units is not None and g_inch is not None"}, **_WF_UNITS),
@@ -97,6 +123,8 @@ CONTRACTS = {
     },
 }
 NAMES = {"units.inch": ("global", "g_inch"), "units.centimeter": ("global", "g_centimeter")}
+CALL_OVERRIDES = {("MaxSonarEZPulseWidth.__init__", "wpilib.Counter"): "sonar.new_counter", ("MaxSonarEZAnalog.__init__", "wpilib.AnalogInput"): "sonar.new_analog",
+                  ("REVAnalogPressureSensor.__init__", "AnalogInput"): "sonar.new_analog"}
 
 
 # ---------------------------------------------------------------- lemmas
